@@ -12,7 +12,8 @@
 use lyon_path::builder::BorderRadii;
 use lyon_path::geom::{Arc, CubicBezierSegment, QuadraticBezierSegment};
 use lyon_path::math::{point, vector, Angle, Box2D, Point, Vector};
-use lyon_path::{Path, PathEvent, Winding};
+use lyon_path::traits::{Build, SvgPathBuilder};
+use lyon_path::{ArcFlags, Path, PathEvent, Winding};
 use lyon_tessellation::geometry_builder::{BuffersBuilder, Positions};
 use lyon_tessellation::{FillOptions, FillRule, FillTessellator};
 use vh::fillgen::{put_edges, put_tris, Mesh};
@@ -194,6 +195,117 @@ fn ellipse_edges(c: Point, radii: Vector, rot: f32, ccw: bool, eps_target: f64) 
         v.push((pts[i], pts[(i + 1) % n]));
     }
     (v, eps + 2e-6 * (rmax + c.x.abs() as f64 + c.y.abs() as f64))
+}
+
+/// One SVG elliptical-arc command in endpoint form.
+#[derive(Clone, Copy, Debug)]
+struct SvgArcCmd {
+    radii: Vector,
+    rot: f32,
+    large: bool,
+    sweep: bool,
+    to: Point,
+}
+
+/// SVG implementation notes F.6.5 (endpoint → centre parametrisation) with the out-of-range
+/// correction of F.6.6 (|r|, scale-up by sqrt(Λ)), evaluated in f64 independently of lyon.
+/// Returns (cx, cy, rx, ry, θ1, Δθ).
+fn svg_centre_param(p0: Point, a: &SvgArcCmd) -> (f64, f64, f64, f64, f64, f64) {
+    let (x1, y1, x2, y2) = (p0.x as f64, p0.y as f64, a.to.x as f64, a.to.y as f64);
+    let phi = a.rot as f64;
+    let (sp, cp) = phi.sin_cos();
+    // F.6.5.1
+    let (dx, dy) = ((x1 - x2) / 2.0, (y1 - y2) / 2.0);
+    let x1p = cp * dx + sp * dy;
+    let y1p = -sp * dx + cp * dy;
+    // F.6.6.1 / F.6.6.2 / F.6.6.3
+    let mut rx = (a.radii.x as f64).abs();
+    let mut ry = (a.radii.y as f64).abs();
+    let lambda = x1p * x1p / (rx * rx) + y1p * y1p / (ry * ry);
+    if lambda > 1.0 {
+        let s = lambda.sqrt();
+        rx *= s;
+        ry *= s;
+    }
+    // F.6.5.2
+    let num = rx * rx * ry * ry - rx * rx * y1p * y1p - ry * ry * x1p * x1p;
+    let den = rx * rx * y1p * y1p + ry * ry * x1p * x1p;
+    let mut coef = (num / den).max(0.0).sqrt();
+    if a.large == a.sweep {
+        coef = -coef;
+    }
+    let cxp = coef * rx * y1p / ry;
+    let cyp = -coef * ry * x1p / rx;
+    // F.6.5.3
+    let cx = cp * cxp - sp * cyp + (x1 + x2) / 2.0;
+    let cy = sp * cxp + cp * cyp + (y1 + y2) / 2.0;
+    // F.6.5.5 / F.6.5.6
+    let (ux, uy) = ((x1p - cxp) / rx, (y1p - cyp) / ry);
+    let (vx, vy) = ((-x1p - cxp) / rx, (-y1p - cyp) / ry);
+    let theta1 = uy.atan2(ux);
+    let mut dtheta = (ux * vy - uy * vx).atan2(ux * vx + uy * vy);
+    if !a.sweep && dtheta > 0.0 {
+        dtheta -= std::f64::consts::TAU;
+    } else if a.sweep && dtheta < 0.0 {
+        dtheta += std::f64::consts::TAU;
+    }
+    (cx, cy, rx, ry, theta1, dtheta)
+}
+
+/// The exact elliptical arc p0 → a.to as a polyline (first point p0, last point a.to) with
+/// certified deviation; also returns the larger (scaled-up) radius and Λ.
+fn svg_arc_points(p0: Point, a: &SvgArcCmd, eps_target: f64) -> (Vec<Point>, f64, f64) {
+    let (cx, cy, rx, ry, th1, dth) = svg_centre_param(p0, a);
+    let rmax = rx.max(ry);
+    let half = (1.0 - (eps_target / rmax).min(0.5)).acos();
+    let n = ((dth.abs() / (2.0 * half)).ceil() as usize).clamp(2, 200);
+    let eps = rmax * (1.0 - (dth.abs() / (2.0 * n as f64)).cos());
+    let (sp, cp) = (a.rot as f64).sin_cos();
+    let mut pts = vec![p0];
+    for i in 1..n {
+        let t = th1 + dth * i as f64 / n as f64;
+        let (ex, ey) = (rx * t.cos(), ry * t.sin());
+        pts.push(point((cx + cp * ex - sp * ey) as f32, (cy + sp * ex + cp * ey) as f32));
+    }
+    pts.push(a.to);
+    (pts, eps, rmax)
+}
+
+/// half chord in the ellipse frame → Λ of F.6.6.2 (for generating radii with a chosen Λ)
+fn svg_lambda(p0: Point, to: Point, radii: Vector, rot: f32) -> f64 {
+    let (sp, cp) = (rot as f64).sin_cos();
+    let (dx, dy) = ((p0.x as f64 - to.x as f64) / 2.0, (p0.y as f64 - to.y as f64) / 2.0);
+    let (x1p, y1p) = (cp * dx + sp * dy, -sp * dx + cp * dy);
+    x1p * x1p / (radii.x as f64).powi(2) + y1p * y1p / (radii.y as f64).powi(2)
+}
+
+fn gen_svg_arc(rng: &mut Rng, from: Point, to: Point) -> (SvgArcCmd, &'static str) {
+    let rot = match rng.below(4) {
+        0 => 0.0,
+        1 => *rng.pick(&[std::f32::consts::FRAC_PI_2, std::f32::consts::PI, -std::f32::consts::FRAC_PI_4, 7.0]),
+        _ => rng.uniform(-3.2, 3.2) as f32,
+    };
+    let circle = rng.chance(1, 3);
+    let bx = rng.uniform(0.5, 2.0);
+    let by = if circle { bx } else { rng.uniform(0.5, 2.0) };
+    let base = vector(bx as f32, by as f32);
+    // choose Λ: < 1 radii fit, > 1 radii too small (must be scaled up by sqrt(Λ))
+    let (lam, what) = match rng.below(5) {
+        0 | 1 => (rng.uniform(0.05, 0.9), "fit"),
+        2 | 3 => (rng.uniform(1.3, 12.0), "too-small"),
+        _ => (rng.uniform(0.9, 1.3), "borderline"),
+    };
+    let l0 = svg_lambda(from, to, base, rot);
+    let k = (l0 / lam).sqrt();
+    let mut radii = vector((bx * k) as f32, (by * k) as f32);
+    if rng.chance(1, 8) {
+        radii.x = -radii.x;
+    }
+    if rng.chance(1, 8) {
+        radii.y = -radii.y;
+    }
+    let fl = rng.below(4);
+    (SvgArcCmd { radii, rot, large: fl & 1 != 0, sweep: fl & 2 != 0, to }, what)
 }
 
 fn curve_case(ctx: &mut Ctx) {
